@@ -16,6 +16,14 @@ KIND_MODULE = dict(join="Trace_Join", v1="Trace_Join", unite="Trace_Unite")
 MS, NS, V1UNIT = 1000000, 1, 10000000
 
 
+def jvm(d, gb):
+    """bounded heap (several TLC runs share the box with other checks) and a private java.io.tmpdir (TLC/SANY unpack their
+    standard modules there and do not always clean up): nothing may be left under /tmp"""
+    t = os.path.join(d, "jtmp")
+    os.makedirs(t, exist_ok=True)
+    return "-Xmx%dg -XX:MaxDirectMemorySize=%dg -Djava.io.tmpdir=%s" % (gb, gb, t)
+
+
 # ------------------------------------------------------------------------------------------------ design checks
 def design_checks(v, sc, jobs, per_job_workers=5, parallel=3, timeout=1500):
     """jobs: [(module, cfg, description)].  Returns list of failure descriptions (empty = all passed)."""
@@ -24,7 +32,7 @@ def design_checks(v, sc, jobs, per_job_workers=5, parallel=3, timeout=1500):
         d = os.path.join(sc, "mc-" + cfg.replace(".cfg", ""))
         os.makedirs(d, exist_ok=True)
         stage_specs(d)
-        return tlc(d, mod, cfg=cfg, workers=per_job_workers, timeout=timeout)
+        return tlc(d, mod, cfg=cfg, workers=per_job_workers, timeout=timeout, javaopts=jvm(d, 5))
     failures = []
     with cf.ThreadPoolExecutor(max_workers=parallel) as ex:
         futs = [(job, ex.submit(one, job)) for job in jobs]
@@ -84,7 +92,7 @@ def tlc_graph(sc, module, cfg, timeout=300):
     d = os.path.join(sc, "graph-" + cfg.replace(".cfg", ""))
     os.makedirs(d, exist_ok=True)
     stage_specs(d)
-    res = tlc(d, module, cfg=cfg, workers=4, timeout=timeout, extra=["-dump", "dot,actionlabels", "g.dot"])
+    res = tlc(d, module, cfg=cfg, workers=4, timeout=timeout, extra=["-dump", "dot,actionlabels", "g.dot"], javaopts=jvm(d, 3))
     if not res.ok:
         raise Inconclusive("state graph dump failed for %s\n%s" % (cfg, res.out[-2000:]))
     inits, out, labels = {}, {}, {}
@@ -256,15 +264,25 @@ def validate(v, sc, traces, timeout=1500):
     groups = {}
     for tr, t in traces.items():
         groups.setdefault(KIND_MODULE[t[0]["c"]["kind"]], []).append(tr)
-    jobs = [(mod, sorted(ids)) for mod, ids in groups.items()] + [("Mon_Join", sorted(traces))]
+    groups["Mon_Join"] = list(traces)
+    jobs = []
+    for mod, ids in sorted(groups.items()):
+        ids = sorted(ids)
+        events = sum(len(traces[i]) for i in ids)
+        k = max(1, min(6, -(-events // 50000)))                  # independent traces: split long logs over parallel TLC runs
+        size = -(-len(ids) // k)
+        for c in range(k):
+            part = ids[c * size:(c + 1) * size]
+            if part:
+                jobs.append((mod, part, c))
 
     def one(job):
-        mod, ids = job
-        d = os.path.join(sc, "tv-" + mod)
+        mod, ids, c = job
+        d = os.path.join(sc, "tv-%s-%d" % (mod, c))
         os.makedirs(d, exist_ok=True)
         stage_specs(d)
         n = write_log(os.path.join(d, "trace.ndjson"), traces, ids)
-        res = tlc(d, mod, cfg=mod + ".cfg", workers=1, timeout=timeout)
+        res = tlc(d, mod, cfg=mod + ".cfg", workers=1, timeout=timeout, javaopts=jvm(d, 2))
         outf = os.path.join(d, "mon_out.json" if mod == "Mon_Join" else "trace_out.json")
         if not res.ok or not os.path.exists(outf):
             if mod != "Mon_Join":
@@ -278,16 +296,16 @@ def validate(v, sc, traces, timeout=1500):
         return res, o
 
     strict, findings, errors = {}, [], []
-    with cf.ThreadPoolExecutor(max_workers=3) as ex:
+    with cf.ThreadPoolExecutor(max_workers=min(NCPU, 6)) as ex:
         futs = [(job, ex.submit(one, job)) for job in jobs]
-        for (mod, ids), fut in futs:
+        for (mod, ids, c), fut in futs:
             res, o = fut.result()
             if o is None:
                 errors.append("%s: %s" % (mod, res.out[-1500:]))
                 continue
             v.add_tlc(res, "%s: %d traces, %d events" % (mod, len(ids), o["events"]))
             if mod == "Mon_Join":
-                findings = o["bad"]
+                findings += o["bad"]
             else:
                 for t in (o["traces"].values() if isinstance(o["traces"], dict) else o["traces"]):
                     strict[t["tr"]] = (bool(t["accepted"]), t["hw"] - t["first"] + 2)
@@ -411,8 +429,12 @@ def run_engine(v, tier, prop, design_jobs, make_schedules, level_note=""):
         v.cov.setdefault("join_engine", {})[prop] = part
         v.cov["drift"] = v.cov.get("drift", 0) + len(drift)
         nontriv = [t for t in traces.values() if rule(facts(t))]
-        for t in (nontriv[:1] + [t for t in nontriv if t[0]["c"]["src"].startswith("tlc")][:1] + nontriv[-1:]):
-            v.sample(compact(t))
+        picked = []
+        for t in (nontriv[:1] + [t for t in nontriv if t[0]["c"]["src"].startswith("enum")][:1]
+                  + [t for t in nontriv if t[0]["c"]["src"].startswith("random")][:1] + nontriv[-1:]):
+            if t[0]["tr"] not in picked:
+                picked.append(t[0]["tr"])
+                v.sample(compact(t))
         if not v.cov["samples"]:
             v.sample(compact(next(iter(traces.values()))))
         rt = "%s [join]: lock-step traces of the real v2 join / v2 unite / v1 join from TLC-graph walks, enumerated and seeded random " \
